@@ -1337,3 +1337,53 @@ Proof.
 Qed.
 Lemma jt_bounded o clk s0 k t1 : (forall i, clk i <= t1) -> jt o clk s0 k -> justified o t1 s0 k = true.
 Proof. intros Hb [i J]. exact (justified_mono_time _ _ _ _ _ (Hb i) J). Qed.
+
+(** * The record links one cleaning to the next: a cleaning that returned nil after doing work has
+    left (a reading of its clock, its instance) in last_clean.json; a cleaning that starts less than
+    its interval after every reading of that clock does nothing *)
+Lemma clean_locked_record e o clk s r s' : clean_locked e o clk s = (r, s') -> r = RNil ->
+  (exists pre, lg s' = pre ++ lg s /\ has_kind does_work pre = false) \/
+  (exists i, lookup (sto s') spec_last_clean = Some (written (clk i) o)).
+Proof.
+  unfold clean_locked. destruct (interval_check e o clk s) as [ir s1] eqn:IC.
+  destruct (interval_check_log _ _ _ _ _ _ IC) as [pre [Epre Hpre]].
+  destruct ir as [| |r0].
+  - set (s2 := if do_ocsp o then delete_old_staples e clk s1 else s1).
+    set (s3 := if do_certs o then snd (delete_expired_certs e clk (grace o) s2) else s2).
+    destruct (do_store e clean_storage_key (written (rd clk s3) o) s3) as [ok s4] eqn:S.
+    intros H; injection H; intros <- <-. intros Hr. destruct ok; [|discriminate]. right.
+    exists (length (lg s3)).
+    destruct consts_ok as (_ & _ & _ & _ & _ & _ & _ & Ek & _). rewrite Ek in S.
+    destruct (do_store_spec _ _ _ _ _ _ S) as [(Hb & _)|(E4 & _ & _)]; [discriminate|].
+    rewrite E4, lookup_put, seqb_refl. reflexivity.
+  - intros H; injection H; intros <- _. intros _. left. exists pre. split; [exact Epre|].
+    destruct Hpre as [->|[ok ->]]; reflexivity.
+  - intros H; injection H; intros _ <-. intros ->. exfalso.
+    revert IC. unfold interval_check. destruct (0 <? interval o); [|intros X; discriminate].
+    destruct (do_load e clean_storage_key s) as [res s2]. destruct res as [v c| |].
+    + destruct (as_clean c) as [[ts i]|]; [destruct (cmp_holds _ _ _)|]; intros X; discriminate.
+    + intros X; discriminate.
+    + intros X; discriminate.
+Qed.
+
+Theorem recorded_then_skip e1 o1 clk1 e2 o2 clk2 s0 :
+  fst (clean e1 o1 clk1 s0) = RNil ->
+  has_kind does_work (rev (lg (snd (clean e1 o1 clk1 s0)))) = true ->
+  0 < interval o2 -> (forall i j, clk2 i - clk1 j < interval o2) ->
+  let s1 := sto (snd (clean e1 o1 clk1 s0)) in
+  sto (snd (clean e2 o2 clk2 s1)) = s1 /\
+  has_kind does_work (rev (lg (snd (clean e2 o2 clk2 s1)))) = false.
+Proof.
+  intros Hr Hw Hi Hc s1. apply skip_when_recent. intros i.
+  assert (R : exists j, lookup s1 spec_last_clean = Some (written (clk1 j) o1)).
+  { subst s1. revert Hr Hw. rewrite has_kind_rev. unfold clean, do_lock.
+    destruct (faulty e1 (St s0 [])); [cbn; discriminate|].
+    destruct (clean_locked e1 o1 clk1 _) as [r s2] eqn:C. cbn [fst snd]. intros ->.
+    destruct (clean_locked_record _ _ _ _ _ _ C eq_refl) as [(pre & Ep & Hp)|R]; [|intros _; exact R].
+    unfold do_unlock. cbn [lg logged]. rewrite Ep. cbn [lg logged].
+    change (Ev KUnlock clean_lock_name (negb (faulty e1 s2)) :: pre ++ [Ev KLock clean_lock_name true])
+      with ([Ev KUnlock clean_lock_name (negb (faulty e1 s2))] ++ pre ++ [Ev KLock clean_lock_name true]).
+    rewrite !has_kind_app, Hp. cbn. discriminate. }
+  destruct R as [j R]. unfold recent, file. rewrite R. unfold written. cbn [as_clean].
+  apply andb_true_iff. split; apply Z.ltb_lt; [exact Hi | exact (Hc i j)].
+Qed.
